@@ -96,6 +96,9 @@ def make(e, rng):
     n = rng.randint(1, 4)
     zs = [rng.randint(1, 103) for _ in range(n)]
     pos = np.array([[round(rng.uniform(-0.2, 1.2), rng.choice([3, 5, 8, 12])) for _ in range(3)] for _ in range(n)])
+    if rng.random() < 0.2:
+        # sites listed several cells away from the reference cell (a legal description of the same structure)
+        pos = pos + np.array([[rng.randint(-12, 12) for _ in range(3)] for _ in range(n)])
     labels = [Element[z].symbol + str(rng.choice([0, 1, 7, 12, 99, 100, 999, rng.randint(0, 999)])) for z in zs]
     occ = np.array([rng.choice([1.0, 1.0, 0.5, 0.25]) for _ in range(n)])
     return Crystal(uc, sg, AsymmetricUnit([Element[z] for z in zs], pos, labels=labels, occupation=occ), titl="t%d" % e.number)
@@ -172,6 +175,30 @@ def judge(idx, seed):
             r = compare(c, c2, fmt)
             if r:
                 return f"{tag} {fmt}: {r}", False
+            if fmt == "cif" and len(c.asymmetric_unit.atomic_numbers) >= 2:
+                # the same file with a second, SHORTER loop of the same category (anisotropic displacement parameters for the first
+                # atom only), as deposited CIFs have: load, write, load again
+                try:
+                    text = open(p).read().rstrip("\n")
+                    if text.endswith("#END"):
+                        text = text[:-4].rstrip("\n")
+                    lab0 = str(c.asymmetric_unit.labels[0])
+                    text += ("\nloop_\n_atom_site_aniso_label\n_atom_site_aniso_U_11\n_atom_site_aniso_U_22\n_atom_site_aniso_U_33\n"
+                             f"{lab0} 0.0123 0.0234 0.0345\n#END\n")
+                    pa = os.path.join(tmp, "aniso.cif")
+                    open(pa, "w").write(text)
+                    ca = Crystal.load(pa)
+                    r = compare(c, ca, "cif")
+                    if r:
+                        return f"{tag} cif with an extra aniso loop: loading: {r}", False
+                    pb = os.path.join(tmp, "aniso2.cif")
+                    ca.save(pb)
+                    cb = Crystal.load(pb)
+                except Exception as ex:  # noqa
+                    return f"{tag} cif with an extra aniso loop: raised {type(ex).__name__}: {ex}", False
+                r = compare(c, cb, "cifdata")
+                if r:
+                    return f"{tag} cif with an extra (shorter) aniso loop, re-saved: {r}", False
             if fmt == "cif":
                 # a crystal that was itself loaded from a file (cif_data reuse branch)
                 try:
